@@ -201,15 +201,34 @@ theorem pshard_mono_size (ps : List Part) (h : PWF ps) (starts : Nat → Nat) (s
     (hs : (0 < s ∧ s ≤ s') ∨ s' ≤ 0) : ∀ id ∈ pshard ps starts s period now, id ∈ pshard ps starts s' period now :=
   PfC12.pshard_mono_size ps h starts s s' period now hs
 
-/-- one partition removed: the old ids without `x.id` plus at most one new id. -/
+/-- one partition removed (any size, `size ≤ 0` = all): the old ids without `x.id` plus at most one new id. -/
 theorem pshard_remove_one (ps : List Part) (h : PWF ps) (ht : PAllTok ps) (htn : PTokNodup ps) (starts : Nat → Nat)
-    (size now now' : Int) (hsize : 0 < size) (x : Part) (hx : x ∈ ps) :
+    (size now now' : Int) (x : Part) (hx : x ∈ ps) :
     (x.id ∉ pshard ps starts size 0 now →
       ∀ id, id ∈ pshard (ps.filter (neqP x)) starts size 0 now' ↔ id ∈ pshard ps starts size 0 now) ∧
     ∃ Z : List Int, Z.length ≤ 1 ∧ (∀ z ∈ Z, z ∉ pshard ps starts size 0 now) ∧
       ∀ id, id ∈ pshard (ps.filter (neqP x)) starts size 0 now' ↔
         ((id ∈ pshard ps starts size 0 now ∧ id ≠ x.id) ∨ id ∈ Z) :=
-  PfC12.pshard_remove_one ps h ht htn starts size now now' hsize x hx
+  PfC12.pshard_remove_one ps h ht htn starts size now now' x hx
+
+/-- one partition added (the same read from the smaller ring `ps` to the larger ring `ps'`). -/
+theorem pshard_add_one (ps ps' : List Part) (h : PWF ps') (ht : PAllTok ps') (htn : PTokNodup ps') (starts : Nat → Nat)
+    (size now now' : Int) (x : Part) (hx : x ∈ ps') (hps : ps = ps'.filter (neqP x)) :
+    ∃ Z : List Int, Z.length ≤ 1 ∧ (∀ z ∈ Z, z ∉ pshard ps' starts size 0 now) ∧
+      ∀ id, id ∈ pshard ps starts size 0 now' ↔ ((id ∈ pshard ps' starts size 0 now ∧ id ≠ x.id) ∨ id ∈ Z) :=
+  PfC12.pshard_add_one ps ps' h ht htn starts size now now' x hx hps
+
+/-- one partition changes its state to a non-ACTIVE one (`setState x s t`, e.g. ACTIVE → INACTIVE): the
+ids of the plain shard stay, except `x.id`, plus at most one new id; unchanged if `x.id` was not
+selected. Read from right to left: a partition becomes ACTIVE. (No token hypotheses needed.) -/
+theorem pshard_deactivate_one (ps : List Part) (h : PWF ps) (starts : Nat → Nat) (size now now' : Int)
+    (x : Part) (hx : x ∈ ps) (s : PState) (hs : s ≠ PState.active) (t : Int) :
+    (x.id ∉ pshard ps starts size 0 now →
+      ∀ id, id ∈ pshard (ps.map (setState x s t)) starts size 0 now' ↔ id ∈ pshard ps starts size 0 now) ∧
+    ∃ Z : List Int, Z.length ≤ 1 ∧ (∀ z ∈ Z, z ∉ pshard ps starts size 0 now) ∧
+      ∀ id, id ∈ pshard (ps.map (setState x s t)) starts size 0 now' ↔
+        ((id ∈ pshard ps starts size 0 now ∧ id ≠ x.id) ∨ id ∈ Z) :=
+  PfC12.pshard_deactivate_one ps h starts size now now' x hx s hs t
 
 /-- look-back superset: the earlier ring is the present one without the partitions added inside the
 window (`keep`) and with the earlier states (`g`, only state / state timestamp differ; a state differs
@@ -222,6 +241,31 @@ theorem pshard_lookback_superset (ps : List Part) (h : PWF ps) (ht : PAllTok ps)
     (hP : ∀ x, (g x).state = PState.active → x.state ≠ PState.pending) :
     ∀ id ∈ pshard ((ps.filter keep).map g) starts size 0 now', id ∈ pshard ps starts size period now :=
   PfC12.pshard_lookback_superset ps h ht htn starts size period now now' hperiod keep hJ g hg hK hP
+
+/-- **the partition look-back shard covers the window** (history with removals, additions and state
+changes): `rτ` is the partition ring at some moment of the window; since then the partitions `L` were
+removed, the partitions dropped by `keep` were added (their `StateTimestamp` is inside the window) and
+states changed as `g` describes (only inside the window, never back to PENDING). Every id of the plain
+shard of that moment that was not removed is an id of the look-back shard now. -/
+theorem pshard_lookback_covers_window (ps : List Part) (h : PWF ps) (ht : PAllTok ps) (htn : PTokNodup ps)
+    (starts : Nat → Nat) (size period now now' : Int) (hperiod : 0 < period)
+    (rτ : List Part) (hrτ : PWF rτ) (htτ : PAllTok rτ) (htnτ : PTokNodup rτ) (L : List Part)
+    (keep : Part → Bool) (hJ : ∀ x, keep x = false → x.stateTs ≥ now - period)
+    (g : Part → Part) (hg : StateOnly g) (hK : ∀ x, (g x).state ≠ x.state → x.stateTs ≥ now - period)
+    (hP : ∀ x, (g x).state = PState.active → x.state ≠ PState.pending)
+    (hr : rτ.filter (notInP L) = (ps.filter keep).map g) :
+    ∀ id ∈ pshard rτ starts size 0 now', (∀ x ∈ L, x.id ≠ id) → id ∈ pshard ps starts size period now :=
+  PfC12.pshard_lookback_covers_window ps h ht htn starts size period now now' hperiod rτ hrτ htτ htnτ L keep hJ g hg hK hP hr
+
+/-- **total on well-formed partition rings**: `pshardC` keeps `ringTokens`, `partitionByToken` and
+`desc.Partitions` apart, and either look-up failing returns `ErrInconsistentTokensInfo` as in the Go
+code; with distinct partition ids and globally unique tokens it never fails and returns `pshard`
+(plain and look-back, any size, stream and time). -/
+theorem pshard_total_on_wf (ps : List Part) (h : PWF ps) (htn : PTokNodup ps) (starts : Nat → Nat) (size period now : Int) :
+    pshardC ps starts size period now = .ok (pshard ps starts size period now) :=
+  PfC12.pshard_total ps h htn starts size period now
+
+example : pwalkC false 0 (fun _ => some 3) (fun _ => none) [7] ⟨[], [], 1⟩ = .error .inconsistentTokensInfo := rfl
 
 /-- non-vacuity of the partition hypotheses. -/
 example : let ps : List Part := [⟨0, .active, 5, [10]⟩, ⟨1, .inactive, 95, [20]⟩, ⟨2, .pending, 1, [30]⟩]
@@ -304,6 +348,61 @@ theorem near_maxint_sizes_hold (starts : String → Nat → Nat) :
   have z : (zonesOf [wa1]).length = 1 := by decide
   rw [e, z] at this
   rw [this]; decide
+
+/-! ### rings with token-less instances (observation O4, outside the property's quantifier)
+
+The theorems above that carry `AllTok` need it: the whole-zone shortcut takes token-less instances,
+the walk cannot reach them. What the code does in general: -/
+
+/-- size without `AllTok`: if the quota reaches the number of instances of the zone, every eligible
+instance of the zone (token-less ones included) is a member; otherwise `min(quota, eligible instances
+that own a token)`. -/
+theorem shard_size_general (cfg : Cfg) (hza : cfg.zoneAware = true) (d : CDesc) (hd : WF d)
+    (starts : String → Nat → Nat) (size now : Int) (hsize : 0 < size) (z : String) (hz : z ∈ zonesOf d) :
+    cnt (eligZ d z) (shard cfg d starts size 0 now) =
+      if expectedPerZone size (zonesOf d).length ≥ (countPerZone d z : Nat) then (eligZ d z).length
+      else min (expectedPerZone size (zonesOf d).length).toNat (eligTokZ d z).length :=
+  PfC12.shard_size_general cfg hza d hd starts size now hsize z hz
+
+/-- a member owns a token unless its whole zone was taken by the shortcut (plain and look-back). -/
+theorem shard_member_token_or_shortcut (cfg : Cfg) (hza : cfg.zoneAware = true) (d : CDesc) (hd : WF d)
+    (starts : String → Nat → Nat) (size period now : Int) (hsize : 0 < size)
+    (he : early d (mkLB period now) = false) :
+    ∀ m ∈ shard cfg d starts size period now,
+      m.tokens ≠ [] ∨ expectedPerZone size (zonesOf d).length ≥ (countPerZone d m.zone : Nat) :=
+  PfC12.shard_member_token_or_shortcut cfg hza d hd starts size period now hsize he
+
+def wt1 : CInst := ⟨"t1", "a", [], 0, 0, false⟩
+def wt2 : CInst := ⟨"t2", "a", [], 0, 0, false⟩
+def wtring : CDesc := [wa1, wa2, wt1, wt2]
+
+/-- **O4 as a theorem**: one zone, size 3. With `a1` and the two token-less instances the shortcut takes
+all three; after ONE instance (`a2`) is added the quota no longer reaches the zone size, the walk
+runs and both token-less instances drop out — two members lost by one addition. This is why
+`shard_add_one` / `shard_remove_one` require every instance to own a token. -/
+theorem tokenless_one_change_witness (starts : String → Nat → Nat) :
+    WF wtring ∧
+    wt1 ∈ shard ⟨true⟩ (wtring.filter (neq wa2)) starts 3 0 0 ∧ wt2 ∈ shard ⟨true⟩ (wtring.filter (neq wa2)) starts 3 0 0 ∧
+    wt1 ∉ shard ⟨true⟩ wtring starts 3 0 0 ∧ wt2 ∉ shard ⟨true⟩ wtring starts 3 0 0 := by
+  have hw : WF wtring := ⟨by decide, by unfold TokNodup; decide⟩
+  have hw' : WF (wtring.filter (neq wa2)) := hw.filter _
+  have hsz := PfC12.shard_size_general ⟨true⟩ rfl _ hw' starts 3 0 (by decide) "a" (by decide)
+  have e : eligZ (wtring.filter (neq wa2)) "a" = [wa1, wt1, wt2] := by decide
+  have hc : expectedPerZone 3 (zonesOf (wtring.filter (neq wa2))).length ≥ (countPerZone (wtring.filter (neq wa2)) "a" : Nat) := by decide
+  rw [if_pos hc, e] at hsz
+  have hall := cnt_full _ _ hsz
+  have hno : ∀ m ∈ shard ⟨true⟩ wtring starts 3 0 0, m.tokens ≠ [] := by
+    intro m hm
+    rcases PfC12.shard_member_token_or_shortcut ⟨true⟩ rfl wtring hw starts 3 0 0 (by decide) (early_plain _ _) m hm with h | h
+    · exact h
+    · exfalso
+      have hz : m.zone = "a" := by
+        have hmem := (PfC12.shard_plain_mem ⟨true⟩ wtring hw starts 3 0 m hm).1
+        simp only [wtring, List.mem_cons, List.not_mem_nil, or_false] at hmem
+        rcases hmem with rfl | rfl | rfl | rfl <;> rfl
+      rw [hz] at h
+      exact absurd h (by decide)
+  refine ⟨hw, hall wt1 (by simp), hall wt2 (by simp), fun h => hno wt1 h rfl, fun h => hno wt2 h rfl⟩
 
 /-! ### non-vacuity: the hypotheses are met by concrete non-trivial rings -/
 
